@@ -53,7 +53,8 @@ def module_theorems(module, namespace=None):
         m = re.match(r"\s*end\b\s*([A-Za-z0-9_'.]*)\s*$", line)
         if m and stack:
             stack.pop(); continue
-        m = re.match(r"\s*(?:@\[[^\]]*\]\s*)*(?:private\s+|protected\s+)?theorem\s+([A-Za-z0-9_'.]+)", line)
+        if re.match(r"\s*(?:@\[[^\]]*\]\s*)*private\s+theorem\b", line): continue   # helpers; audited through their users
+        m = re.match(r"\s*(?:@\[[^\]]*\]\s*)*(?:protected\s+)?theorem\s+([A-Za-z0-9_'.]+)", line)
         if m:
             ns = ".".join(n for (k, n) in stack if k == "ns")
             out.append((("%s.%s" % (ns, m.group(1))) if ns else m.group(1), module))
